@@ -340,6 +340,9 @@ func (self *Value) SetByPath(sub Value, path ...Path) (exist bool, err error) {
 				return false, err
 			}
 			f := desc.Struct().FieldByKey(p.str())
+			if f == nil {
+				return false, errValue(meta.ErrUnknownField, fmt.Sprintf("field name '%s' is not defined in IDL", p.str()), nil)
+			}
 			p = NewPathFieldId(f.ID())
 		}
 		if err := v.setNotFound(p, &sub.Node); err != nil {
@@ -377,6 +380,9 @@ func (self *Value) UnsetByPath(path ...Path) error {
 			return err
 		}
 		f := desc.Struct().FieldByKey(p.str())
+		if f == nil {
+			return errValue(meta.ErrUnknownField, fmt.Sprintf("field name '%s' is not defined in IDL", p.str()), nil)
+		}
 		p = NewPathFieldId(f.ID())
 	}
 	ret := v.deleteChild(p)
